@@ -2566,7 +2566,7 @@ fn anim_case(run: &mut Run, i: u64, k: u64, rng: &mut Rng) {
     let nsec_class = ((k / 4) % 3) as u8;
     let nbones_class = ((k / 12) % 3) as u8;
     let lab = if format == AnimFormat::Modern { "modern" } else { "legacy" };
-    let class = format!("anim|{lab}|{risk}|s{nsec_class}b{nbones_class}");
+    let class = format!("anim|{lab}|{risk}|s{nsec_class}b{nbones_class}|ids{}", (k / 36) % 3);
     let desc = json!({"kind": "anim", "format": lab, "risk": risk, "sections_class": nsec_class, "bones_class": nbones_class});
     let mut r = rng.clone();
     run.case(i, &class, desc, |c| {
@@ -2576,7 +2576,15 @@ fn anim_case(run: &mut Run, i: u64, k: u64, rng: &mut Rng) {
             nsec = 1;
         }
         let with_data = risk != "clean";
-        let sections: Vec<AnimSection> = (0..nsec).map(|_| gen_anim_section(r, with_data, if with_data { nbones_class.max(1) } else { nbones_class })).collect();
+        let mut sections: Vec<AnimSection> = (0..nsec).map(|_| gen_anim_section(r, with_data, if with_data { nbones_class.max(1) } else { nbones_class })).collect();
+        // animation ids: random (distinct), or drawn from a tiny id space so that variations share an id (real files do:
+        // several sections per animation id), or distinct with the index entries in another order than the sections
+        let id_mode = (k / 36) % 3;
+        if id_mode == 1 {
+            for s in sections.iter_mut() {
+                s.header.id = [4u32, 64, 64, 5][r.usize(4)];
+            }
+        }
         let file = if format == AnimFormat::Modern {
             let mut hb = b"MAOF".to_vec();
             hb.extend_from_slice(&[0u8; 16]);
@@ -2585,7 +2593,15 @@ fn anim_case(run: &mut Run, i: u64, k: u64, rng: &mut Rng) {
             h.id_count = nsec as u32;
             h.unknown = r.next_u32();
             h.anim_entry_offset = 20;
-            let entries = sections.iter().map(|s| AnimEntry { id: if r.bool() { s.header.id } else { r.next_u32() }, offset: 0, size: 0 }).collect();
+            let mut entries: Vec<AnimEntry> = sections.iter().map(|s| AnimEntry { id: if id_mode != 0 || r.bool() { s.header.id } else { r.next_u32() }, offset: 0, size: 0 }).collect();
+            if id_mode == 2 && entries.len() > 1 {
+                // same ids, rotated: entry i no longer carries section i's id
+                let ids: Vec<u32> = entries.iter().map(|e| e.id).collect();
+                let n = ids.len();
+                for (i, e) in entries.iter_mut().enumerate() {
+                    e.id = ids[(i + 1) % n];
+                }
+            }
             AnimFile { format, sections, metadata: AnimMetadata::Modern { header: h, entries } }
         } else {
             AnimFile { format, sections, metadata: AnimMetadata::Legacy { file_size: 0, animation_count: nsec as u32, structure_hints: LegacyStructureHints { appears_valid: true, estimated_blocks: nsec as u32, has_timestamps: false } } }
